@@ -2,6 +2,7 @@ import GwModel.MergeDef
 import GwModel.Gen.Facts
 import GwModel.MergeSig
 import GwModel.MergeDirs
+import GwModel.MergeLocs
 /-! # C10 — Merging does not depend on service order or on the run -/
 namespace Props.C10
 open Mg Facts
@@ -87,5 +88,13 @@ theorem without_the_pairing_the_order_of_the_services_decides :
 
 example : Md.listsEqual ["@r(n: 1)", "@s", "@r(n: 1)"] ["@s", "@r(n: 1)", "@r(n: 1)"] = true ∧
           Md.listsEqual ["@r(n: 1)", "@r(n: 1)"] ["@r(n: 1)", "@r(n: 2)"] = false := by decide
+
+
+/-- **whether two definitions of a directive merge, and which locations the merged one allows, do not depend on the
+    order of the services** -/
+theorem directive_locations_merge_the_same_either_way {α : Type} [DecidableEq α] (isTS : α → Bool) (l1 l2 : List α) :
+    (Ml.mergeLocs isTS l1 l2).isSome = (Ml.mergeLocs isTS l2 l1).isSome ∧
+    ∀ r r', Ml.mergeLocs isTS l1 l2 = some r → Ml.mergeLocs isTS l2 l1 = some r' → ∀ x, x ∈ r ↔ x ∈ r' :=
+  ⟨Ml.mergeLocs_isSome_comm isTS l1 l2, fun r r' h h' x => Ml.mergeLocs_mem_comm isTS l1 l2 r r' h h' x⟩
 
 end Props.C10
